@@ -132,12 +132,12 @@ def hypothesis_family(kind, seed, n_trees, per_tree):
         dyn, vt = draw(st.sampled_from([(False, 'none'), (False, 'none'), (True, 'none'), (True, 'int'), (True, 'str')]))
         ns = dict(node='ns', req=draw(st.booleans()), vt=vt, dyn=dyn, pop=draw(st.booleans()) if kind == 'input' else True,
                   val=draw(st.sampled_from(['none', 'none', 'nonneg'])), ports=[])
-        k = draw(st.integers(0, 3)) if depth < 4 else 0
+        k = (draw(st.integers(2, 3)) if depth == 1 else draw(st.integers(0, 3))) if depth < 4 else 0
         for i in range(k):
             if budget[0] <= 0:
                 break
             budget[0] -= 1
-            if depth < 4 and draw(st.integers(0, 2)) == 0:
+            if depth < 4 and draw(st.integers(0, 1)) == 0:
                 ns['ports'].append((names[i], gen_ns(draw, depth + 1, budget)))
             else:
                 ns['ports'].append((names[i], gen_leaf(draw)))
@@ -181,7 +181,7 @@ def hypothesis_family(kind, seed, n_trees, per_tree):
 
     @st.composite
     def item(draw):
-        budget = [draw(st.integers(3, 10))]
+        budget = [draw(st.integers(4, 10))]
         tree = gen_ns(draw, 1, budget)
         tree['pop'] = True
         if kind == 'input':
